@@ -81,8 +81,8 @@ func cleanString(str string) string {
 	if str[0] == byte(0) {
 		str = str[1:]
 	}
-	if str[len(str)-1] == byte(0) {
-		str = str[0 : len(str)-2]
+	if len(str) > 0 && str[len(str)-1] == byte(0) {
+		str = str[0 : len(str)-1]
 	}
 	return str
 }
